@@ -5,6 +5,7 @@ import (
 	"math"
 	"sort"
 	"testing"
+	"time"
 
 	age "github.com/craterdog/go-collection-framework/v4/agent"
 	col "github.com/craterdog/go-collection-framework/v4/collection"
@@ -291,7 +292,7 @@ func execAssoc[K comparable, V any](c assocCase, kt keyType[K], vt valType[V]) (
 	}
 	var coll assocLike[K, V]
 	var catalog col.CatalogLike[K, V]
-	var source assocLike[K, V] // the collection the constructor was given (sequence forms with a catalog or map as source)
+	var source assocLike[K, V]                // the collection the constructor was given (sequence forms with a catalog or map as source)
 	var argAssocs []col.AssociationLike[K, V] // the Go array of associations the constructor was given
 	seqSource := func() col.Sequential[col.AssociationLike[K, V]] {
 		switch c.Ctor {
@@ -589,7 +590,9 @@ func execAssoc[K comparable, V any](c assocCase, kt keyType[K], vt valType[V]) (
 					return -1
 				}
 				if op.Ranker == "by-value" {
-					rank = func(a, b col.AssociationLike[K, V]) age.Rank { return rankOfInts(vindex(a.GetValue()), vindex(b.GetValue())) }
+					rank = func(a, b col.AssociationLike[K, V]) age.Rank {
+						return rankOfInts(vindex(a.GetValue()), vindex(b.GetValue()))
+					}
 					bad = func(a, b pair[K]) bool { return a.v > b.v }
 				} else {
 					rank = func(a, b col.AssociationLike[K, V]) age.Rank {
@@ -695,6 +698,8 @@ func TestC03(t *testing.T) {
 	core.Rapid(r, core.Check[assocCase]{Name: "history", Gen: genAssocCase("catalog", keyTypes, 40, 8), Exec: execAssocCase}, r.N(3000, 30000))
 	// every history of up to 3 (quick) / 4 (thorough) operations over 3 keys, including pointer keys with equal pointees
 	core.DFS(r, core.Check[assocCase]{Name: "small-histories", Gen: genSmallAssoc("catalog", r.N(3, 4)), Exec: execAssocCase, NoJournal: true}, 0)
+	core.DFS(r, core.Check[longLivedCase]{Name: "long-lived-instance", Gen: genLongLived([]string{"Catalog"}, r.N(150000, 1200000)), Exec: execLongLived("C03"), NoJournal: true, HangLimit: 300 * time.Second}, 0)
+	core.DFS(r, core.Check[lookupCase]{Name: "class-lookups", Gen: genLookups([]string{"Catalog"}), Exec: execLookups("C03"), NoJournal: true}, 0)
 }
 
 // small enumerated histories: keys 0..2, values 1..2, no constructor data
